@@ -194,6 +194,11 @@ func (tr TranslationConfig) translatePackage(pkg *packages.Package) (coq.File, e
 			"could not load package %v:\n%v", pkg.PkgPath,
 			pkgErrors(pkg.Errors))
 	}
+	if _, err := ffiOf(pkg); err != nil {
+		// report this like any other failure of the package rather than
+		// panicking in a worker, which would abort the other packages too
+		return coq.File{}, errors.Wrapf(err, "could not translate package %v", pkg.PkgPath)
+	}
 	ctx := NewPkgCtx(pkg, tr)
 	files := sortedFiles(pkg.CompiledGoFiles, pkg.Syntax)
 
